@@ -234,16 +234,16 @@ func init() {
 	}
 	checks["C13"] = &CheckDef{
 		Pkgs: []string{"./control"}, Splice: true,
-		Harness: []string{"control:Verif_C13_taskpool", "control:Verif_C13_taskpool_recycle", "control:Verif_C13_tuples", "control:Verif_C13_tuples_handover", "control:Verif_C13_overflow", "control:Verif_C13_endpoint_pool", "control:Verif_C13_endpoint_cooldown", "control:Verif_C13_endpoint_invalidation"},
+		Harness: []string{"control:Verif_C13_taskpool", "control:Verif_C13_taskpool_recycle", "control:Verif_C13_tuples", "control:Verif_C13_tuples_handover", "control:Verif_C13_overflow", "control:Verif_C13_endpoint_pool", "control:Verif_C13_endpoint_cooldown", "control:Verif_C13_endpoint_invalidation", "control:Verif_C13_endpoint_adoption"},
 		Stubs: map[string]string{"(*github.com/daeuniverse/dae/control.UdpEndpoint).prewarmResponseConn": "noop", "github.com/daeuniverse/dae/control.reportUdpEndpointDialCreateFailure": "noop"},
 		MaxIter: 1000,
 		Level:   "other",
-		LevelText: "The real UdpTaskPool (EmitTask, acquireQueue, enqueue, convoy with its idle timer, tryDeleteQueue, channel recycling through sync.Pool) and the real conn-state tuple tracker (Retain / BeginRelease / FinalizeRelease / Forget with waiters on an in-flight deletion, through controlPlaneCore.Retain/Release/TransferRetainedUdpConnStateTuples) run as goroutines under the engine's schedule exploration: every interleaving at blocking operations plus one preemption at any atomic / mutex / channel / sync.Map / timer operation, the idle timer free to fire whenever its waiter is scheduled; schedules are symbolic inputs enumerated by the solver and pinned in the replay file. Obligations: every accepted task runs exactly once, tasks of a flow never overlap and keep each producer's order, nothing is lost in or run from a recycled channel; a kernel flow entry is deleted only when no owner holds its tuple, is gone once the last owner has gone (also when a reload moved ownership to the next generation's tracker), nothing stays tracked and no goroutine stays blocked on a deletion. The real UdpEndpointPool.GetOrCreate / createEndpointLocked / retire / Close / cacheFailureLocked run against a model dialer and model packet sockets: two concurrent first packets of one source cause a single dial and share the endpoint, a later packet reuses it, a write error retires it and closes its transport exactly once, the retired endpoint is never handed out again (a new dial follows), closing twice closes once; after a failed dial the source is refused without dialling until the cool-down has passed on an arbitrary clock; when the node behind an endpoint is reported not alive, an endpoint that has not yet carried traffic is retired (closed once, never handed out again) and one that has is kept. Two genuine defects were found with this check and repaired (see known_findings.json): the idle collection could remove a queue that still held a task, and an overflowing burst could overtake older tasks in the channel.",
+		LevelText: "The real UdpTaskPool (EmitTask, acquireQueue, enqueue, convoy with its idle timer, tryDeleteQueue, channel recycling through sync.Pool) and the real conn-state tuple tracker (Retain / BeginRelease / FinalizeRelease / Forget with waiters on an in-flight deletion, through controlPlaneCore.Retain/Release/TransferRetainedUdpConnStateTuples) run as goroutines under the engine's schedule exploration: every interleaving at blocking operations plus one preemption at any atomic / mutex / channel / sync.Map / timer operation, the idle timer free to fire whenever its waiter is scheduled; schedules are symbolic inputs enumerated by the solver and pinned in the replay file. Obligations: every accepted task runs exactly once, tasks of a flow never overlap and keep each producer's order, nothing is lost in or run from a recycled channel; a kernel flow entry is deleted only when no owner holds its tuple, is gone once the last owner has gone (also when a reload moved ownership to the next generation's tracker), nothing stays tracked and no goroutine stays blocked on a deletion. The real UdpEndpointPool.GetOrCreate / createEndpointLocked / retire / Close / cacheFailureLocked run against a model dialer and model packet sockets: two concurrent first packets of one source cause a single dial and share the endpoint, a later packet reuses it, a write error retires it and closes its transport exactly once, the retired endpoint is never handed out again (a new dial follows), closing twice closes once; after a failed dial the source is refused without dialling until the cool-down has passed on an arbitrary clock; when the node behind an endpoint is reported not alive, an endpoint that has not yet carried traffic is retired (closed once, never handed out again) and one that has is kept; a live endpoint adopted by the next generation (before or after registering its first tuples) has all its tuples in the new generation's tracker and none in the old one, and closing it empties both and removes the kernel entries. Two genuine defects were found with this check and repaired (see known_findings.json): the idle collection could remove a queue that still held a task, and an overflowing burst could overtake older tasks in the channel.",
 		LevelNote: "Trusted: go/ssa, executor and its cooperative thread model (goroutines switch only at synchronisation operations: data-race-free code assumed; an unbuffered channel is a one-slot buffer), z3. Endpoint pool: the reply path to the client (Anyfrom sockets; prewarmResponseConn is stubbed), dialer health reporting (stubbed), the janitor, health invalidation epochs and generation adoption are not covered.",
 		Technique: techniqueText,
 		Explanation: "Bounded schedule exploration (symbolic schedules, bounded preemptions) of the UDP task pool and the conn-state tuple tracker.",
 		Bounds: map[string]string{"quick": "task pool: 2 producers, 3 tasks, one or two flow keys, 1 preemption, each timer fires <=2 times; overflow: bursts of 1/128/129/257/430 tasks for one flow before the worker runs, 0-2 later tasks (deterministic schedule); endpoint pool: 2 concurrent GetOrCreate on one key (all interleavings at blocking points, the dial yields), then reuse, write error, re-dial, double close; cool-down on an arbitrary clock; tuples: 3 owners over 2 tuples (1 preemption), hand-over of 1 tuple between two generations with a concurrent close", "thorough": "2 preemptions for the task pool"},
-		Outside: []string{"UdpEndpointPool janitor, adoptGeneration, Reset/Close of the pool, reply loop to the client", "overflow FIFO interleaved with concurrent producers (the burst harness fills it before the worker runs)", "task panics", "pool Close/Reset racing with producers", "data races on non-atomic fields"},
+		Outside: []string{"UdpEndpointPool janitor, drain-tracker hand-over in adoptGeneration, Reset/Close of the pool, reply loop to the client", "overflow FIFO interleaved with concurrent producers (the burst harness fills it before the worker runs)", "task panics", "pool Close/Reset racing with producers", "data races on non-atomic fields"},
 		Assumptions: []string{"goroutines switch only at synchronisation operations", "BpfMapBatchDelete replaced by a shadow table", "model dialer / packet socket; prewarmResponseConn and reportUdpEndpointDialCreateFailure stubbed", "the kernel re-creates a flow entry once an owner has retained its tuple"},
 		QuickBudget: 10 * time.Minute, ThoroughBudget: 20 * time.Minute,
 	}
@@ -267,7 +267,7 @@ func init() {
 		Harness: []string{"control:Verif_C09_forwarder_lifetime", "control:Verif_C09_cached_reply_id", "control:Verif_C09_udp_upstream_id", "control:Verif_C09_singleflight"},
 		MaxIter: 2000,
 		Level:   "other",
-		LevelText: "Three clauses of the property on the real code. (1) 'A retired upstream connection is closed exactly once, after its last in-flight query': cachedDnsForwarder.beginUse / endUse / retire / closeNow with two borrowing queries and a retirement as goroutines under schedule exploration (every interleaving at blocking points plus up to two preemptions at any atomic operation, schedules as symbolic inputs): an admitted query never sees its forwarder closed, the forwarder is closed exactly once when retired and idle, a retired forwarder admits nobody. (2) 'Each reply carries that client's transaction ID': DnsController.writeCachedResponse on an arbitrary packed answer (12-20 symbolic bytes) and an arbitrary client ID: the datagram sent is the cached answer with exactly the first two bytes replaced, from the queried server's address to the client, and the cached bytes are untouched. (3) 'Whatever an upstream does (answer late, twice, for a different question)': DoUDP.ForwardDNS with the real connection pool against a model socket delivering up to three datagrams with arbitrary IDs: exactly the first datagram carrying the request's ID is returned, none is made up otherwise. (4) Concurrent identical questions: two clients call the real HandleWithResponseWriter_ at the same time (real x/sync singleflight, resolution replaced by a yielding stub returning an uncacheable NXDOMAIN), all interleavings at blocking operations: both are served exactly once under their own symbolic IDs and the replies are separate message objects. A genuine defect was found with this check and repaired (see known_findings.json): endUse could close a retired forwarder under a query admitted just before the retirement.",
+		LevelText: "Three clauses of the property on the real code. (1) 'A retired upstream connection is closed exactly once, after its last in-flight query': cachedDnsForwarder.beginUse / endUse / retire / closeNow with two borrowing queries and a retirement as goroutines under schedule exploration (every interleaving at blocking points plus up to two preemptions at any atomic operation, schedules as symbolic inputs): an admitted query never sees its forwarder closed, the forwarder is closed exactly once when retired and idle, a retired forwarder admits nobody. (2) 'Each reply carries that client's transaction ID': DnsController.writeCachedResponse on an arbitrary packed answer (12-20 symbolic bytes, and a 1030-byte answer beyond the pooled buffer) and an arbitrary client ID: the datagram sent is the cached answer with exactly the first two bytes replaced, from the queried server's address to the client, and the cached bytes are untouched. (3) 'Whatever an upstream does (answer late, twice, for a different question)': DoUDP.ForwardDNS with the real connection pool against a model socket delivering up to three datagrams with arbitrary IDs: exactly the first datagram carrying the request's ID is returned, none is made up otherwise. (4) Concurrent identical questions: two clients call the real HandleWithResponseWriter_ at the same time (real x/sync singleflight, resolution replaced by a yielding stub returning an uncacheable NXDOMAIN), all interleavings at blocking operations: both are served exactly once under their own symbolic IDs and the replies are separate message objects. A genuine defect was found with this check and repaired (see known_findings.json): endUse could close a retired forwarder under a query admitted just before the retirement.",
 		LevelNote: "Partial claim. Not covered: TCP pipelining with ID reuse, UDP->TCP fallback, caching under the right key - the last is covered from the cache side by C07/C08). Trusted: go/ssa, executor and its thread model (switches only at synchronisation operations), z3, miekg/dns Pack/Unpack as executed.",
 		Technique: techniqueText,
 		Explanation: "Bounded symbolic execution and schedule exploration of DNS reply ID handling, upstream ID filtering and forwarder lifetime.",
@@ -281,7 +281,7 @@ func init() {
 		Harness: []string{"control:Verif_C05_relay", "control:Verif_C05_relay_error", "control:Verif_C05_prefetch"},
 		MaxIter: 2000,
 		Level:   "other",
-		LevelText: "The real relay (RelayTCPContextWithRecords -> relayCore.run with its two direction goroutines, context watcher and forceClose, defaultRelayCopyEngine.Copy, tryRelayGatherWrite with TakeRelaySegments / TakeRelayPrefix / CopyRelayRemainder, relayCopyLoop / relayCopyDirect) runs between two model sockets under the engine's schedule exploration (every interleaving of client, upstream, the two copy directions and the watcher at blocking operations; schedules are symbolic inputs). The client side is plain, or wrapped the way handleConn wraps it: prefixedConn with read-ahead bytes, bufioConn after a DNS-detection Peek, or ConnSniffer over a prefixedConn after a failed sniff. Client and upstream each send two segments of symbolic bytes and shut down their sending side. Obligations: each side receives exactly the other's byte stream (read-ahead included, no loss, duplication or reordering); each end of stream is passed on as exactly one write-shutdown and nothing is written after it; the relay finishes without error. A second harness resets the upstream at either write: the relay does not hang, reports the error and closes both connections. A genuine defect was found with this check and repaired (see known_findings.json): the wrappers hid CloseWrite, so the upstream's end of stream reached a client behind a sniffing wrapper only after the 10 s half-close timeout.",
+		LevelText: "The real relay (RelayTCPContextWithRecords -> relayCore.run with its two direction goroutines, context watcher and forceClose, defaultRelayCopyEngine.Copy, tryRelayGatherWrite with TakeRelaySegments / TakeRelayPrefix / CopyRelayRemainder, relayCopyLoop / relayCopyDirect) runs between two model sockets under the engine's schedule exploration (every interleaving of client, upstream, the two copy directions and the watcher at blocking operations; schedules are symbolic inputs). The client side is plain, or wrapped the way handleConn wraps it: prefixedConn with read-ahead bytes, bufioConn after a DNS-detection Peek, or ConnSniffer over a prefixedConn after a failed sniff. Client and upstream each send two segments of symbolic bytes and shut down their sending side; the model sockets either report end of stream on its own or together with their last bytes (as TLS / AEAD streams do). Obligations: each side receives exactly the other's byte stream (read-ahead included, no loss, duplication or reordering); each end of stream is passed on as exactly one write-shutdown and nothing is written after it; the relay finishes without error. A second harness resets the upstream at either write: the relay does not hang, reports the error and closes both connections. A genuine defect was found with this check and repaired (see known_findings.json): the wrappers hid CloseWrite, so the upstream's end of stream reached a client behind a sniffing wrapper only after the 10 s half-close timeout.",
 		LevelNote: "Partial claim. The splice(2) and writev fast paths need real *net.TCPConn file descriptors and are not executed (model sockets take the buffered-loop and gather paths); handleConn's wiring (DNS fast path, prefetch timing, routing, dial) is not executed; the detection-window timing clause is covered for the sniffer only (C06). Trusted: go/ssa, executor and thread model (switches at blocking operations only in this check), z3.",
 		Technique: techniqueText,
 		Explanation: "Bounded schedule exploration of the TCP relay core over model sockets with symbolic payloads.",
